@@ -366,7 +366,8 @@ def _check_decl(case, cls, light=False):
     try:
         if cls.nbits != nbits:
             return [("nbits", "nbits is %r, the declared leaves sum to %d" % (cls.nbits, nbits))]
-        for val in case["vals"][:3] if light else case["vals"]:
+        vals = case["vals"][:3] if light else case["vals"]
+        for val in vals:
             b, v = val["b"], val["v"]
             o = L.build_value(cls, shape, v)                      # keyword construction
             got = L.bits_of(o.to_bits(), nbits, "to_bits()")
@@ -382,11 +383,16 @@ def _check_decl(case, cls, light=False):
             if mm:
                 out.append(("layout", "from_bits(%s): %s" % (b, mm)))
                 break
-            if light:
-                continue
-            parts = [getattr(o, fd["n"]) for fd in shape["fs"]]   # positional construction, declared order
-            p = cls(*[copy.deepcopy(x) for x in parts])
-            got = L.bits_of(p.to_bits(), nbits, "to_bits()")
+        for val in () if light else vals:
+            b, v = val["b"], val["v"]
+            o = L.build_value(cls, shape, v)
+            parts = [copy.deepcopy(getattr(o, fd["n"])) for fd in shape["fs"]]
+            try:
+                p = cls(*parts)                                   # positional construction, declared order
+                got = L.bits_of(p.to_bits(), nbits, "to_bits()")
+            except Exception as ex:  # noqa: BLE001
+                out.append(("positional-init", "T(*fields in declared order) raised %s: %s" % (type(ex).__name__, ex)))
+                break
             if got != b:
                 out.append(("positional-init", "T(*fields in declared order).to_bits() gives %s, specification %s" % (got, b)))
                 break
